@@ -8,6 +8,29 @@ first_missed = {"C01-m1": "C01 cannot see it (needs a history); C03 missed it un
                 "C05-m1": "no positive-definite/indefinite switch on one Cholesky instance", "C05-m2": "all right-hand sides had norm > 1", "C06-m2": "no block rhs with x0 on an iterative inner solver; failing calls were compared with a fresh *wrapper* only",
                 "C06-m3": "all right-hand sides were O(1)", "C13-m2": "returned tables were never edited by the caller", "C15-m3": "no badly scaled dyads", "C16-m3": "KS domain excluded wide ranges also for rho<0",
                 "C17-m1": "every signal had its own float array", "C18-m2": "nested slices never overshot the outer extent"}
+first_missed.update({
+    "C01-r2m2": "one AggScaling helper was never shared between two aggregation modules",
+    "C01-r2m3": "all matrices and loads were O(1): physical magnitudes (E = 2e11, tiny seeds) were not generated",
+    "C02-r2m2": "ConcatSignal inputs were all C-ordered",
+    "C02-r2m3": "no pre-allocated source sensitivities, no evaluation with a non-finite derivative before the compared one",
+    "C03-r2m3": "CG networks kept the load magnitude constant between responses, so the warm start was always close",
+    "C04-r2m2": "matrix-valued seeds never had zero columns next to a seeded sibling output",
+    "C05-r2m3": "block right-hand sides had columns of equal magnitude and no warm start solving the dominant one",
+    "C06-r2m2": "every case used a single wrapper; no second wrapper alive in the same process",
+    "C07-r2m1": "no indefinite-then-definite sequence on one Cholesky-backed LinSolve",
+    "C07-r2m2": "matrices were always new objects, never updated in place",
+    "C07-r2m3": "block right-hand sides had columns of equal magnitude",
+    "C09-r2m1": "value overrides were always registered before the first response",
+    "C09-r2m3": "no sibling DensityFilter with nonpadding for the same domain and radius in one process",
+    "C10-r2m1": "variable signals never had a pre-allocated sensitivity",
+    "C10-r2m3": "variable ranges were all O(1), and runs that stopped by themselves were allowed the 'still on its way' margin",
+    "C11-r2m1": "matrices were always new objects, never updated in place",
+    "C11-r2m3": "no slender pencils: lowest eigenvalues were never many orders below the matrix entries",
+    "C12-r2m3": "exhaustive bound (and thorough samples) stayed below 4096 elements",
+    "C13-r2m1": "only one domain instance was alive at a time and its tables were never customised",
+    "C14-r2m2": "the design was always handed over as a new array, never updated in place",
+    "C16-r2m2": "response sequences never had sensitivity()/reset() between responses",
+})
 print("| id | defect (needs) | caught by (quick tier) | first evaluation |")
 print("|---|---|---|---|")
 for f in sorted(glob.glob(os.path.join(HERE, "seeded", "*", "meta.json"))):
